@@ -12,10 +12,16 @@ def register(prop, J):
                extra_pkgs=["dyn", "gendrv"], timeout=(900, 3000)),
              J("missing-v1", "v1", "codecprops", "^TestC06", checks=(8000, 3600000), shards=(4, 16), prepare="prepare_codec",
                extra_pkgs=["dyn", "gendrv"], timeout=(900, 3000)),
+             # (appended: the position of a job determines its derived seeds) the lenient / strict client half of the property
+             J("lenient-v2", "v2", "resprops", "^TestC06", checks=(3000, 600000), shards=(2, 16), prepare="prepare_resources",
+               extra_pkgs=["dyn", "gendrv"], timeout=(900, 3000)),
+             J("lenient-v1", "v1", "resprops", "^TestC06", checks=(3000, 600000), shards=(2, 16), prepare="prepare_resources",
+               extra_pkgs=["dyn", "gendrv"], timeout=(900, 3000)),
          ],
          level_text="generated edit scripts over valid documents against a model of the missing-required-field set (full paths, one "
                     "error, nothing reported when nothing is missing) and of the partially decoded value, for four reader kinds",
-         level_note="documents are rendered by the reference encoder; the lenient-client half of the property is exercised by the "
-                    "resource-level harness (C02 family)",
+         level_note="documents are rendered by the reference encoder; the lenient-client half of the property runs in the resource-level "
+                    "harness (jobs lenient-*): required fields are removed from the entities of captured responses and the edited response "
+                    "is served to a lenient and to a strict generated client",
          technique="property-based testing (rapid) with a missing-field reference model; metamorphic across readers and key orders",
          design_ref="2/C06")
